@@ -120,3 +120,8 @@ PROPS["C23"] = {
     "outside": ["filters with thousands of entries (the probe arithmetic is per hash; u32 overflow of 8*bits.len() at 512 MiB filters is not covered)",
                 "probe counts above 8 (see C17)"],
 }
+
+# further groups live in lib/reg_*.py (same helpers: group, H, PROPS)
+import glob as _glob, os as _os
+for _f in sorted(_glob.glob(_os.path.join(_os.path.dirname(_os.path.abspath(__file__)), "reg_*.py"))):
+    exec(compile(open(_f).read(), _f, "exec"))
